@@ -247,6 +247,11 @@ func convertPeerAuthentication(rootNamespace string, cfg, nsCfg, rootCfg *securi
 		return nil
 	}
 
+	// A namespace-level policy whose mode is UNSET inherits from the mesh-level policy: treat it as absent.
+	if nsCfg != nil && isMtlsModeUnset(nsCfg.Spec.Mtls) {
+		nsCfg = nil
+	}
+
 	action := security.Action_DENY
 	var rules []*security.Rules
 	var groups []*security.Group
